@@ -213,8 +213,38 @@ func (rn *runner) checkModel(op *opSpec, trace string, evs []Event, states [][2]
 			return
 		}
 	}
-	ans = r.Ask("apply")
-	if !r.Check(prop, "post-state", append(append([]string{}, ops...), "apply"), ans, post.modelDigest(rn.fx)+" consistent=1") {
+	rn.pendingApply = true
+}
+
+// checkModelFaults: for every faulted call k the model's `execFault` state must be the pre-state the
+// real code was found in; then the operation is committed in the model and the post-state compared.
+func (rn *runner) checkModelFaults(op *opSpec, faults map[int]string) {
+	r := rn.r
+	ks := make([]int, 0, len(faults))
+	for k := range faults {
+		ks = append(ks, k)
+	}
+	sort.Ints(ks)
+	for _, k := range ks {
+		q := fmt.Sprintf("fault %d", k)
+		ans := r.Ask(q)
+		r.Count("model.fault")
+		if !r.Check(prop, "fault-state", append(append([]string{}, rn.modelOps...), q), ans, "pre "+faults[k]) {
+			rn.dead = true
+			return
+		}
+	}
+}
+
+// applyModel commits the last operation in the model and compares the post-state and the verdict of
+// the model's `consistentB` with the real database and the Go oracle.
+func (rn *runner) applyModel(post *Dump) {
+	if !rn.pendingApply {
+		return
+	}
+	rn.pendingApply = false
+	ans := rn.r.Ask("apply")
+	if !rn.r.Check(prop, "post-state", append(append([]string{}, rn.modelOps...), "apply"), ans, post.modelDigest(rn.fx)+" consistent=1") {
 		rn.dead = true
 	}
 }
